@@ -809,8 +809,10 @@ class Engine(object):
                         nv.path = path
                     memo[path] = nv
                 return memo[path]
-            f_ = z3.Function("attr:%s" % attr, Opaque, Opaque)
             self.assumptions.add("attribute reads on uninterpreted objects are pure (attr:%s is a function of the object)" % attr)
+            if attr == "__name__":
+                return VStr(z3.Function("attr_str:__name__", Opaque, S)(v.z))
+            f_ = z3.Function("attr:%s" % attr, Opaque, Opaque)
             return VOpaque(f_(v.z), note="." + attr)
         raise Unsupported("attribute %s of %s" % (attr, type(v).__name__))
 
@@ -1194,8 +1196,12 @@ class Engine(object):
             return [(st, st.alloc(RecordObj({k: (z3.BoolVal(True), v) for k, v in kwargs.items()})))]
         if name == "partial" and args:
             return [(st, VPartial(args[0], args[1:], kwargs))]
-        if name == "getattr" and len(args) == 2 and isinstance(args[1], VStr) and z3.is_string_value(args[1].z):
+        if name == "getattr" and len(args) in (2, 3) and isinstance(args[1], VStr) and z3.is_string_value(args[1].z) and (len(args) == 2 or isinstance(args[0], VOpaque)):
+            # getattr(x, "a", default) on an uninterpreted object: "the attribute or the default" is a function of the object
             return [(st, self.get_attr(args[0], args[1].z.as_string(), st, e))]
+        if name == "type" and len(args) == 1 and isinstance(args[0], VOpaque):
+            f_ = z3.Function("typeof", Opaque, Opaque)
+            return [(st, VOpaque(f_(args[0].z), note="type(...)"))]
         if name == "setattr" and len(args) == 3 and isinstance(args[0], VOpaque) and getattr(args[0], "path", None) and isinstance(args[1], VStr) and z3.is_string_value(args[1].z):
             st.ghost.setdefault("__paths__", {})[args[0].path + "." + args[1].z.as_string()] = args[2]
             return [(st, VNone())]
@@ -1554,6 +1560,13 @@ class Engine(object):
             return VBool(z3.And(rec.fields["doc"][0], z3.PrefixOf(args[1].z, rec.fields["doc"][1].z)))
         if name in ("refs_closed", "writes_only", "has_op", "declares_param", "defines"):
             return self.tree_spec(name, args, st)
+        if name == "at":
+            o_ = lst(args[0])
+            if o_.kind != "seq":
+                raise OutOfSubset("at() expects a seq list")
+            if not isinstance(args[1], VInt):
+                return VOpaque(note="at(non-int)")  # only meaningful under a premise that makes the index an int
+            return self.wrap_sort(o_.g["seq"][args[1].z], o_.elem)
         if name == "is_suffix":
             a_, b_ = lst(args[0]), lst(args[1])
             if a_.kind == "empty":
